@@ -374,6 +374,44 @@ def expected (p : Puller) (s : Script) (codec : Codec) : Option Bytes :=
 def genBytes (seed len : Nat) : Bytes :=
   (List.range len).map fun i => UInt8.ofNat ((i / 61) * 37 + seed + i % 7)
 
+/-! ### which paths a pull touches: `temp_sibling` -/
+
+/-- A destination as `Path::with_file_name` sees it: the parent directory and the final component
+(as characters: only concatenation and equality matter). -/
+structure FPath where
+  dir : List String
+  name : List Char
+  deriving DecidableEq, Repr
+
+/-- `temp_sibling`: `name.push(suffix); final_path.with_file_name(name)` — the suffix is *appended* to the
+whole file name (extension included), in the same directory. -/
+def tempSibling (suffix : List Char) (p : FPath) : FPath := ⟨p.dir, p.name ++ suffix⟩
+
+/-- A file system over all paths. -/
+abbrev World := FPath → Option Bytes
+
+def World.set (w : World) (p : FPath) (v : Option Bytes) : World := fun q => if q = p then v else w q
+
+/-- The two-path view of a world for a pull to `d`. -/
+def World.view (w : World) (suffix : List Char) (d : FPath) : FS := ⟨w d, w (tempSibling suffix d)⟩
+
+/-- One operation of a pull to `d`, on the whole world. -/
+def Op.applyAt (suffix : List Char) (d : FPath) (w : World) : Op → World
+  | .create => w.set (tempSibling suffix d) (some [])
+  | .write bs => w.set (tempSibling suffix d) ((w (tempSibling suffix d)).map (· ++ bs))
+  | .flush => w
+  | .sync => w
+  | .close => w
+  | .renameFail => w
+  | .rename =>
+    match w (tempSibling suffix d) with
+    | some c => (w.set d (some c)).set (tempSibling suffix d) none
+    | none => w
+  | .remove => w.set (tempSibling suffix d) none
+
+def runOpsAt (suffix : List Char) (d : FPath) (w : World) (ops : List Op) : World :=
+  ops.foldl (Op.applyAt suffix d) w
+
 /-! ### value-decoding pulls -/
 
 /-- A streaming value decoder, uninterpreted: `early acc` = the value is complete after the bytes
